@@ -238,3 +238,73 @@ Definition node_go_to (self : nodeid) (a : goarg) : res (list pos) :=
 Definition is_some {A} (o : option A) : bool := match o with Some _ => true | None => false end.
 Definition binary_is_leaf {A} (children : list (option A)) : bool :=
   Nat.eqb (length (filter is_some children)) 0.
+
+(* ---- the inherited queries executed on a BinaryNode tree ---------------------------------------- *)
+(* BinaryNode.children is always the pair of slots (left, right), each a node or None
+   (binarynode.py:286-292); BaseNode.diameter and BaseNode.siblings are inherited unchanged and
+   iterate over that pair. *)
+Inductive btree := BT (tag : nat) (l r : option btree).
+
+Definition bt_tag (b : btree) : nat := match b with BT g _ _ => g end.
+Definition bt_children (b : btree) : list (option btree) := match b with BT _ l r => [l; r] end.
+Definition bt_is_leaf (b : btree) : bool := binary_is_leaf (bt_children b).
+
+(* basenode.py:538-546 on a BinaryNode: `for child in node.children` also visits the empty slots,
+   and _recursive_diameter(None) fails at `node.is_leaf` with AttributeError *)
+Fixpoint bt_recursive_diameter (node : btree) (diameter : nat) : res (nat * nat) :=
+  match node with
+  | BT _ l r =>
+      if binary_is_leaf [l; r] then Ret (1, diameter) else
+      let call (c : option btree) (d : nat) : res (nat * nat) :=
+        match c with None => Raise AttributeError | Some b => bt_recursive_diameter b d end in
+      match call l diameter with
+      | Raise e => Raise e
+      | Ret (x, d1) =>
+          match call r d1 with
+          | Raise e => Raise e
+          | Ret (y, d2) =>
+              let child_length := [x; y] in
+              Ret (1 + list_max child_length, Nat.max d2 (list_sum (nlargest 2 child_length)))
+          end
+      end
+  end.
+
+Definition bt_diameter (b : btree) : res nat :=
+  if bt_is_leaf b then Ret 0 else
+  match bt_recursive_diameter b 0 with
+  | Ret (_, d) => Ret d
+  | Raise e => Raise e
+  end.
+
+(* the node with tag g, and the node one of whose slots holds it *)
+Fixpoint bt_find (b : btree) (g : nat) : option btree :=
+  match b with
+  | BT h l r =>
+      if Nat.eqb h g then Some b else
+      match (match l with Some lb => bt_find lb g | None => None end) with
+      | Some x => Some x
+      | None => match r with Some rb => bt_find rb g | None => None end
+      end
+  end.
+
+Definition slot_is (g : nat) (c : option btree) : bool :=
+  match c with Some b => Nat.eqb (bt_tag b) g | None => false end.
+
+Fixpoint bt_parent_of (b : btree) (g : nat) : option btree :=
+  match b with
+  | BT _ l r =>
+      if slot_is g l || slot_is g r then Some b else
+      match (match l with Some lb => bt_parent_of lb g | None => None end) with
+      | Some x => Some x
+      | None => match r with Some rb => bt_parent_of rb g | None => None end
+      end
+  end.
+
+(* basenode.py:443-452 on a BinaryNode: tuple(child for child in self.parent.children if child is not self)
+   — an empty slot (None) "is not self" and is kept *)
+Definition bt_siblings (root : btree) (g : nat) : list (option nat) :=
+  match bt_parent_of root g with
+  | None => []
+  | Some parent =>
+      map (option_map bt_tag) (filter (fun c => negb (slot_is g c)) (bt_children parent))
+  end.
